@@ -26,6 +26,12 @@ def _sym_of(e, v, name):
         x = e.fresh_int(name)
         e.add(x.z == v)
         return x
+    if isinstance(v, float) and v == v and abs(v) < 2.0 ** 40 and v != int(v) and (v * 16) == int(v * 16):
+        # a dyadic fraction: symbolic twin with the exact representation num / 2^k
+        n, d = v.as_integer_ratio()
+        x = e.fresh_dyadic(name, d.bit_length() - 1)
+        e.add(x.dy[0] == n)
+        return x
     if isinstance(v, str):
         s = e.fresh_str(name, len(v))
         for c, ch in zip(s.cps, v):
@@ -125,6 +131,23 @@ def model_validation(seed, verbose=False):
     results.append(differential('int(str)', models.m_int, int, [(s,) for s in strs]))
     results.append(differential('int(str,16)', lambda s: models.m_int(s, 16), lambda s: int(s, 16), [(s,) for s in strs + ['ff', 'FF', '1g', '7f', 'FFFFFFFFFF']]))
     results.append(differential('float(str)', lambda s: models.m_float(s), float, [(s,) for s in strs]))
+    import math
+    dys = [0.5, -0.5, 1.5, -2.5, 0.25, -0.75, 3.125, 1024.5, -7.0625, 2.0 ** 39 + 0.5, -(2.0 ** 39) - 0.25, 0.0625, 6.5, -1.25]
+    others = [1, -1, 2, 3, -4, 10, 0.5, -0.25, 1.5, 2.5, 0.125, 7.0, -3.0, 100]
+    dd = [(a, b) for a in dys for b in others]
+    for nm, f in (('+', lambda a, b: a + b), ('-', lambda a, b: a - b), ('*', lambda a, b: a * b), ('/', lambda a, b: a / b),
+                  ('r-', lambda a, b: b - a), ('r/', lambda a, b: b / a), ('//', lambda a, b: a // b), ('%', lambda a, b: a % b)):
+        results.append(differential('dyadic ' + nm, f, f, dd))
+    results.append(differential('dyadic cmp', lambda a, b: (a < b, a == b, a >= b), lambda a, b: (a < b, a == b, a >= b), dd))
+    results.append(differential('dyadic floor/ceil/trunc', lambda a: (math.floor(a), math.ceil(a), models.m_int(a)) if False else
+                                (models.sym_call(math.floor, a), models.sym_call(math.ceil, a), models.m_int(a), abs(a), -a),
+                                lambda a: (math.floor(a), math.ceil(a), int(a), abs(a), -a), [(a,) for a in dys]))
+    results.append(differential('dyadic ceil(a/b)*b', lambda a, b: models.sym_call(math.ceil, a / b) * b, lambda a, b: math.ceil(a / b) * b, dd))
+    results.append(differential('dyadic int(a/b)', lambda a, b: models.m_int(a / b), lambda a, b: int(a / b), dd))
+    results.append(differential('dyadic round', lambda a, k: models.m_round(a, k), round,
+                                [(a, k) for a in dys + [0.125, 0.375, 2.675, 1.005, -0.5625, 12345.6875] for k in (-2, -1, 0, 1, 2, 3)]))
+    results.append(differential('dyadic roundup kernel', lambda a, k: models.sym_call(math.ceil, abs(a) * 10 ** k) / 10 ** k,
+                                lambda a, k: math.ceil(abs(a) * 10 ** k) / 10 ** k, [(a, k) for a in dys for k in (0, 1, 2, 3)]))
     expforms = ['1e2', '5E0', '9e9', '1.5e-3', '0.0E-9', '7.25e+2', ' 3e1 ', '-4e-2', '+2.5E3', '1e', 'e5', '1e+', '1.e2', '.5e1', '1e2.0',
                 '12345.678e-4', '0e0', '9.9E-9', '1ee2', '1e-22', '123456789012e3']
     results.append(differential('float(exponent text)', lambda s: models.m_float(s), float, [(s,) for s in expforms]))
